@@ -258,11 +258,33 @@ SPELL_MAP = ['#[difference(collection_strategy = "unordered_map_like", map_equal
 SPELL_RMAP = ['#[difference(collection_strategy = "unordered_map_like", recurse, map_equality = "%s")]', '#[difference(recurse, collection_strategy = "unordered_map_like", map_equality = "%s")]',
               '#[difference(map_equality = "%s", recurse)]\n    #[difference(collection_strategy = "unordered_map_like")]']
 
-def rust_types(sh, name, out, derives, struct_attr=''):
+def setter_plan(sid, sh):
+    """which fields of the top-level struct get a generated setter, and under which name (deterministic rules so that the Python
+    oracle, the Rust code generator and the case generator agree): struct-level `setters` for sid % 3 in {0,1}, per-field opt-in
+    `setter` on even fields for sid % 3 == 2; field i % 5 == 3 opts out with `skip_setter`; field i % 5 == 4 has a custom name.
+    Skipped fields and key-and-value recursive maps never get a setter (the macro generates none)."""
+    plan = {}
+    if sh.kind != 'S': return 'none', plan
+    mode = 'all' if int(sid) % 3 != 2 else 'optin'
+    for i, f in enumerate(sh.fields):
+        if f.strat == 'K' or (f.strat == 'N' and not f.ko): continue
+        if i % 5 == 3: continue
+        if mode == 'optin' and i % 2 != 0: continue
+        plan[i] = f"cust_f{i}" if i % 5 == 4 else f"set_f{i}_with_diff"
+    return mode, plan
+
+def setter_attr(mode, i):
+    items = []
+    if mode == 'optin' and i % 2 == 0: items.append('setter')
+    if i % 5 == 3: items.append('skip_setter')
+    if i % 5 == 4: items.append(f'setter_name = "cust_f{i}"')
+    return f"#[difference({', '.join(items)})]\n    " if items else ''
+
+def rust_types(sh, name, out, derives, struct_attr='', setters=None):
     """emit struct definitions + Vconv impls for shape sh named `name` (depth-first); returns the Rust type name"""
     if sh.kind == 'E':
         return 'En'
-    fields, fromv, tov = [], [], []
+    fields, fromv, tov, setarms = [], [], [], []
     for i, f in enumerate(sh.fields):
         s = f.strat
         fn = f"f{i}"
@@ -282,12 +304,19 @@ def rust_types(sh, name, out, derives, struct_attr=''):
             inner = rust_types(f.sub, f"{name}_{i}", out, derives)
             ty = ('HashMap' if f.c == 0 else 'BTreeMap') + f"<i64, {inner}>"
             attr = SPELL_RMAP[(i + len(name)) % len(SPELL_RMAP)] % ('key_only' if f.ko else 'key_and_value')
+        if setters is not None:
+            attr = setter_attr(setters[0], i) + attr
         fields.append(f"    {attr}\n    pub {fn}: {ty}," if attr else f"    pub {fn}: {ty},")
+        if setters is not None and i in setters[1]:
+            setarms.append(f"            {i} => Some(self.{setters[1][i]}(<{ty} as Fconv>::fv(v, 0))),")
         fromv.append(f"            {fn}: <{ty} as Fconv>::fv(&fs[{i}], {1 if s == 'U' else 0}),")
         tov.append(f"            self.{fn}.tv({1 if s == 'U' else 0}),")
     out.append(f"#[derive({derives})]\n{struct_attr}pub struct {name} {{\n" + '\n'.join(fields) + "\n}\n"
                f"impl HasOptionMarker for {name} {{}}\nimpl Fconv for {name} {{\n    fn fv(v: &Val, _u: u8) -> Self {{\n        let fs = match v {{ Val::Struct(fs) => fs, _ => panic!(\"struct expected\") }};\n        {name} {{\n"
                + '\n'.join(fromv) + f"\n        }}\n    }}\n    fn tv(&self, _u: u8) -> Val {{\n        Val::Struct(vec![\n" + '\n'.join(tov) + "\n        ])\n    }\n}\n")
+    if setters is not None:
+        out.append(f"impl SetField for {name} {{\n    fn set_field(&mut self, i: usize, v: &Val) -> Option<Option<<Self as StructDiff>::Diff>> {{\n        match i {{\n"
+                   + '\n'.join(setarms) + "\n            _ => None,\n        }\n    }\n}\n")
     return name
 
 def rust_module(shapes, derives="Debug, Clone, PartialEq, Difference", setters=False):
@@ -296,7 +325,12 @@ def rust_module(shapes, derives="Debug, Clone, PartialEq, Difference", setters=F
     arms = []
     for sid, ko, sh in shapes:
         chunk = []
-        ty = rust_types(sh, f"T{sid}", chunk, derives, struct_attr=('#[difference(setters)]\n' if setters else ''))
+        if setters and sh.kind == 'S':
+            mode, plan = setter_plan(sid, sh)
+            ty = rust_types(sh, f"T{sid}", chunk, derives, struct_attr=('#[difference(setters)]\n' if mode == 'all' else ''), setters=(mode, plan))
+        else:
+            ty = rust_types(sh, f"T{sid}", chunk, derives)
+            if sh.kind == 'S': chunk.append(f"impl SetField for T{sid} {{}}\n")
         out.append('\n'.join(chunk).replace('MAPEQ', 'key_only' if ko else 'key_and_value'))
         arms.append(f'        "{sid}" => run::<{ty}>(toks),')
     return ("// GENERATED by /verif/tools/gen_derive.py\n#![allow(non_camel_case_types, dead_code, unused_imports)]\n"
